@@ -269,38 +269,73 @@ func (d *discharger) one(u *unit, o *oblig, extra []string) {
 		d.solverT += o.secs
 		d.mu.Unlock()
 	}
-	if o.hasQ {
-		gq := u.queryMode(o, extra, false, true)
-		gf := filepath.Join(d.dir, fmt.Sprintf("q%05d.ground.smt2", id))
-		os.WriteFile(gf, []byte(gq), 0644)
-		res, name, _, secs := d.race(ctx, solvers[:2], gf, d.timeoutMs)
-		o.secs += secs
-		if res == "unsat" {
-			removeQ(gf)
-			o.res, o.solver, o.ground, o.qsize = "unsat", name, true, len(gq)
-			done()
-			return
-		}
-		if len(o.insts2) > 0 {
-			// second ground attempt with the wider instance set
-			gq2 := u.queryStage(o, extra, false, true, 2)
-			gf2 := filepath.Join(d.dir, fmt.Sprintf("q%05d.ground2.smt2", id))
-			os.WriteFile(gf2, []byte(gq2), 0644)
-			res, name, _, secs := d.race(ctx, solvers[:2], gf2, d.timeoutMs)
-			o.secs += secs
-			if res == "unsat" {
-				removeQ(gf2)
-				o.res, o.solver, o.ground, o.qsize = "unsat", name, true, len(gq2)
-				done()
-				return
-			}
-		}
-	}
 	q := u.query(o, extra, false)
 	o.qsize = len(q)
 	os.WriteFile(file, []byte(q), 0644)
-	res, name, _, secs := d.race(ctx, solvers, file, d.retryMs)
-	o.secs += secs
+	var res, name string
+	if o.hasQ {
+		// two tracks at once: the quantifier-free query with the hypotheses instantiated on the
+		// ground (stage 1, then the wider stage 2), and the full quantified query; the first
+		// `unsat` wins. (Some obligations are only provable on the ground, others only with the
+		// solver's own instantiation: running the tracks one after the other cost 10-20 s on the
+		// latter for nothing.)
+		type tr struct {
+			res, name string
+			ground    bool
+			qsize     int
+		}
+		cctx, cancel := context.WithCancel(ctx)
+		ch := make(chan tr, 2)
+		t0 := time.Now()
+		go func() {
+			gq := u.queryMode(o, extra, false, true)
+			gf := filepath.Join(d.dir, fmt.Sprintf("q%05d.ground.smt2", id))
+			os.WriteFile(gf, []byte(gq), 0644)
+			r, n, _, _ := d.race(cctx, solvers[:2], gf, d.timeoutMs)
+			removeQ(gf)
+			if r == "unsat" || len(o.insts2) == 0 || cctx.Err() != nil {
+				ch <- tr{r, n, true, len(gq)}
+				return
+			}
+			gq2 := u.queryStage(o, extra, false, true, 2)
+			gf2 := filepath.Join(d.dir, fmt.Sprintf("q%05d.ground2.smt2", id))
+			os.WriteFile(gf2, []byte(gq2), 0644)
+			r, n, _, _ = d.race(cctx, solvers[:2], gf2, d.timeoutMs)
+			removeQ(gf2)
+			ch <- tr{r, n, true, len(gq2)}
+		}()
+		go func() {
+			r, n, _, _ := d.race(cctx, solvers, file, d.retryMs)
+			ch <- tr{r, n, false, len(q)}
+		}()
+		var full tr
+		got := 0
+		for got < 2 {
+			x := <-ch
+			got++
+			if x.res == "unsat" {
+				res, name = "unsat", x.name
+				o.ground, o.qsize = x.ground, x.qsize
+				break
+			}
+			if !x.ground {
+				full = x
+			}
+		}
+		cancel()
+		o.secs += time.Since(t0).Seconds()
+		if res != "unsat" {
+			// a model of the instantiated query is not a refutation; the full query's verdict stands
+			res, name = full.res, full.name
+			if res == "" {
+				res = "unknown"
+			}
+		}
+	} else {
+		var secs float64
+		res, name, _, secs = d.race(ctx, solvers, file, d.retryMs)
+		o.secs += secs
+	}
 	o.res, o.solver = res, name
 	if res == "sat" {
 		mf := filepath.Join(d.dir, fmt.Sprintf("q%05d.model.smt2", id))
